@@ -712,3 +712,4 @@ def check(run, replay=None):
 
 # workloads added in seeding rounds 7-10 (DESIGN.md sections 13.9-13.12)
 LEVEL_TEXT = LEVEL_TEXT + ' Later additions: scans with one-, two- and three-pixel frames; serpentine ridges (ascent paths far longer than height + width); frames that already hold a bool / uint8 / int32 / int64 array under the label name.'
+LEVEL_TEXT = LEVEL_TEXT + ' Round 11: label / work buffers as int64, window, transposed, uint32 (refused or filled).'
